@@ -107,14 +107,11 @@ class TTCollection(object):
         the 'file' argument can be either a pathname or a writable
         file object.
         """
-        if not hasattr(file, "write"):
-            final = None
-            file = open(file, "wb")
-        else:
-            # assume "file" is a writable file object
-            # write to a temporary stream to allow saving to unseekable streams
-            final = file
-            file = BytesIO()
+        # Write to a temporary stream first: this allows saving to unseekable
+        # streams, and a failure while compiling leaves an existing destination
+        # file untouched (like TTFont.save).
+        final = file
+        file = BytesIO()
 
         tableCache = {} if shareTables else None
 
@@ -154,7 +151,11 @@ class TTCollection(object):
             # Write the length and offset
             file.write(struct.pack(">2L", len(data), dsig_offset))
 
-        if final:
+        if not hasattr(final, "write"):
+            with open(final, "wb") as f:
+                f.write(file.getvalue())
+        else:
+            # assume "final" is a writable file object
             final.write(file.getvalue())
         file.close()
 
